@@ -7,7 +7,6 @@ set -u
 export GOFLAGS=-mod=mod GOPROXY=off GOSUMDB=off GOTOOLCHAIN=local
 # scratch copies live under changing paths: give them a build cache of their own and drop it at the end
 export GOCACHE=/tmp/verif-gocache-alt
-trap 'rm -rf /tmp/verif-gocache-alt' EXIT
 src=$1; name=$2; pkg=$3; shift 3
 dst=/verif/seeded/$name
 mkdir -p $dst && cp -r $src/. $dst/ 2>/dev/null
